@@ -238,6 +238,27 @@ def run(index, rep, tier):
             ok, msg = False, "range built but not handed to new_character_subset"
     rep.check(ok, "R19.6", fi.qualname, norm_stmt(rng), fn_where(fi, rng), "subset columns = " + norm(rng.value), msg)
 
+    # ---- R19.8: the label probe and the insertion consult the same container
+    rep.rule("R19.8", "concatenate: the uniqueness probe for a subset label tests membership in the very mapping the insertion tests (<matrix>.character_subsets, a case-insensitive mapping), not in a derived snapshot")
+    ncs = [c for c in calls_in(fi.node) if call_name(c) == "new_character_subset" and isinstance(c.func, ast.Attribute)]
+    if not ncs:
+        raise AnalysisError("R19.8: concatenate no longer calls new_character_subset")
+    for c in ncs:
+        lab = get_kwarg(c, "label") or (c.args[0] if c.args else None)
+        recv = norm(c.func.value)
+        probes = []
+        if isinstance(lab, ast.Name):
+            for w in walk_no_nested(fi.node):
+                if isinstance(w, (ast.While, ast.If)):
+                    for t in ast.walk(w.test):
+                        if isinstance(t, ast.Compare) and len(t.ops) == 1 and isinstance(t.ops[0], (ast.In, ast.NotIn)) and norm(t.left) == lab.id:
+                            probes.append(t)
+        ok = bool(probes) and all(norm(t.comparators[0]) == recv + ".character_subsets" for t in probes)
+        what = "; ".join(norm(t) for t in probes) or "no membership probe on the label"
+        rep.check(ok, "R19.8", fi.qualname, "subset label probed in a different container: %s" % what[:80], fn_where(fi, probes[0] if probes else c),
+                  "the label handed to %s.new_character_subset is probed in %s.character_subsets" % (recv, recv),
+                  "concatenate chooses the subset label with `%s` but inserts it through %s.new_character_subset, which rejects labels already in %s.character_subsets - a case-insensitive mapping: a probe through a snapshot/derived collection compares case-sensitively (or goes stale), so labels differing only in case pass the probe and the insertion raises, or a subset is overwritten" % (what[:120], recv, recv))
+
     # ---- R19.7
     nfor = 0
     for fi in index.methods_of(CM):
